@@ -111,6 +111,30 @@ CLAIMED['C05'] = {
     'design': '§5 C05',
 }
 
+CLAIMED['C01'] = {
+    'text': 'Static, per build profile: every exported batch constructor of DelaunayTriangulation / the builder returns Ok '
+            'only behind the success edge of a sound Delaunay verifier (greatest fixed point over all bodies returning '
+            'Result<DelaunayTriangulation..>, closures and the retry / fallback wrappers included), and the PL-manifold '
+            'completion check is passed on the true edge of requires_vertex_links_at_completion. The debug and the '
+            'release fact bases are analysed separately because RetryPolicy and validation paths differ — the suite '
+            'never runs the release paths. Decides "Ok is certified", not that the certifier is numerically right.',
+    'note': 'Trusted: rustc MIR; the L4 leaf table; Pseudomanifold has no Level-3 completion gate by design (noted in '
+            'evidence). Vertex-set / statistics clauses are not decided.',
+    'technique': 'greatest-fixed-point certification (dominance on success edges) over rustc MIR',
+    'design': '§5 C01',
+}
+CLAIMED['C02'] = {
+    'text': 'Static: the insertion safety net as must-pass-through instances: commit only behind validate_after_insertion '
+            '(bootstrap excepted), link and orientation checkers on the true edge of the guarantee predicates, '
+            'orientation normalisation / check and local ridge links after a per-insertion repair, Inserted only behind '
+            'maybe_check_after_insertion which validates when the policy fires. Path-sensitive for literal bool flags. '
+            'Decides that no committing path skips the net; not that the validators suffice.',
+    'note': 'Trusted: rustc MIR; edges taken when number_of_cells() == 0 and is_empty() on the checked collection are '
+            'cut as legitimate bypasses; Pseudomanifold + ValidationPolicy::Never has no gate by design.',
+    'technique': 'must-pass-through (dominance) with bool constant propagation over rustc MIR',
+    'design': '§5 C02',
+}
+
 NOT_APPLICABLE = {
     'C04': 'verdict is the sign of floating-point in-sphere determinants vs exact arithmetic (numerical); the only structural handle is a delegation shape that a correct re-implementation would break',
     'C10': 'correctness of point location is a sign pattern of orientation determinants along a walk (geometric); loop bound is covered under C19',
